@@ -23,8 +23,11 @@ enum End {
     MidRequestStall,
     /// header + part of the body of an oversized item, then silence until the idle timeout
     OversizedStall,
+    /// quit, then the client hangs up without reading the answer (the server's answer meets a
+    /// closed socket, its own shutdown fails)
+    QuitHangUp,
 }
-const ENDS: [End; 10] = [
+const ENDS: [End; 11] = [
     End::Close,
     End::Quit,
     End::QuitQ,
@@ -35,6 +38,7 @@ const ENDS: [End; 10] = [
     End::Reset,
     End::MidRequestStall,
     End::OversizedStall,
+    End::QuitHangUp,
 ];
 
 struct Conn {
@@ -114,6 +118,10 @@ fn end_conn(w: &NetWorld, conns: &mut Vec<Conn>, i: usize, kind: End, limit_item
             if !conns[i].c.eof {
                 return Some("quitq: connection not closed by the server".into());
             }
+            conns[i].c.close(w);
+        }
+        End::QuitHangUp => {
+            let _ = conns[i].c.send(w, &Req::bare(op::QUIT).opaque(0x75).bytes());
             conns[i].c.close(w);
         }
         End::MidRequest => {
